@@ -1,4 +1,5 @@
-(* SpooledBytesIO: for every max_size the model behaves as the reference file. *)
+(* SpooledBytesIO: for every max_size the model behaves as the reference file,
+   at every position >= 0 (also past the end of the data). *)
 From Coq Require Import ZifyBool.
 From Boltons Require Import Lib.Prelude Spec.C18_Spec Model.C18_Model Proofs.C18_Lines.
 
@@ -17,30 +18,70 @@ Qed.
 
 Lemma f_write_empty d : f_write rf_empty d = mkRF d (length d).
 Proof.
-  unfold f_write, call, rf_empty. simpl. unfold overwrite. simpl. rewrite skipn_nil, app_nil_r. reflexivity.
+  unfold f_write, call, rf_empty. simpl. unfold overwrite. destruct d as [|x d]; [reflexivity|].
+  cbn [firstn length Nat.sub repeat app Nat.add rf_pos]. rewrite skipn_nil, app_nil_r. reflexivity.
 Qed.
+
+(* buffer.seek: the reference seek, and the file is flushed *)
+Lemma sb_seek_spec s off wh :
+  sb_buf (fst (sb_seek s off wh)) = fst (ref_step (sb_buf s) (Seek off wh)) /\
+  snd (sb_seek s off wh) = snd (ref_step (sb_buf s) (Seek off wh)) /\
+  sb_max (fst (sb_seek s off wh)) = sb_max s /\ sb_rolled (fst (sb_seek s off wh)) = sb_rolled s /\
+  sb_synced (fst (sb_seek s off wh)) = length (rf_data (sb_buf s)).
+Proof.
+  unfold sb_seek, call. destruct (ref_step (sb_buf s) (Seek off wh)) as [b o] eqn:E. cbn.
+  repeat split. cbn [ref_step] in E.
+  destruct (seek_target (sb_buf s) off wh <? 0)%Z; injection E as <- _; reflexivity.
+Qed.
+
+Lemma sb_seek0_spec s pos :
+  sb_buf (sb_seek0 s pos) = mkRF (rf_data (sb_buf s)) pos /\
+  sb_max (sb_seek0 s pos) = sb_max s /\ sb_rolled (sb_seek0 s pos) = sb_rolled s /\
+  sb_synced (sb_seek0 s pos) = length (rf_data (sb_buf s)).
+Proof.
+  unfold sb_seek0. destruct (sb_seek_spec s (Z.of_nat pos) 0) as [A [_ [B [C D]]]].
+  rewrite A, B, C, D. split; [|auto]. apply f_seek0_eq.
+Qed.
+
+Lemma sb_seek_end_spec s :
+  sb_buf (fst (sb_seek s 0 2)) = mkRF (rf_data (sb_buf s)) (length (rf_data (sb_buf s))) /\
+  sb_max (fst (sb_seek s 0 2)) = sb_max s /\ sb_rolled (fst (sb_seek s 0 2)) = sb_rolled s.
+Proof.
+  destruct (sb_seek_spec s 0 2) as [A [_ [B [C _]]]]. rewrite A, B, C. split; [|auto]. apply f_seek_end.
+Qed.
+
+Lemma rf_eta f : mkRF (rf_data f) (rf_pos f) = f.
+Proof. now destruct f. Qed.
 
 (* rollover copies content and position *)
-Lemma sb_rollover_buf s : sb_buf (sb_rollover s) = sb_buf s.
+Lemma sb_rollover_buf s : sb_buf (sb_rollover s) = sb_buf s /\ sb_max (sb_rollover s) = sb_max s.
 Proof.
-  unfold sb_rollover. destruct (sb_rolled s); [reflexivity|]. simpl.
-  rewrite f_write_empty, f_seek0_eq. simpl. unfold f_tell. now destruct (sb_buf s).
+  unfold sb_rollover. destruct (sb_rolled s); [auto|].
+  match goal with |- context [sb_seek0 ?t ?p] => destruct (sb_seek0_spec t p) as [A [B _]] end.
+  rewrite A, B. cbn [sb_buf sb_max]. rewrite f_write_empty. cbn [rf_data]. unfold f_tell.
+  split; [apply rf_eta|reflexivity].
 Qed.
-Lemma sb_rollover_max s : sb_max (sb_rollover s) = sb_max s.
-Proof. unfold sb_rollover. now destruct (sb_rolled s). Qed.
 
+(* len(f): the seek(0) before fstat is what makes the size right on disk *)
 Lemma sb_len_spec s : sb_buf (fst (sb_len s)) = sb_buf s /\ snd (sb_len s) = length (rf_data (sb_buf s))
                       /\ sb_max (fst (sb_len s)) = sb_max s.
 Proof.
-  unfold sb_len. destruct (sb_rolled s); simpl;
-    rewrite ?f_seek_end, !f_seek0_eq; simpl; unfold f_tell; destruct (sb_buf s); simpl; auto.
+  unfold sb_len, f_tell. destruct (sb_rolled s); cbn [fst snd].
+  - destruct (sb_seek0_spec s 0) as [A [B [_ D]]].
+    destruct (sb_seek0_spec (sb_seek0 s 0) (rf_pos (sb_buf s))) as [A' [B' _]].
+    rewrite A', B', A, B, D. cbn [rf_data]. split; [apply rf_eta|auto].
+  - destruct (sb_seek_end_spec s) as [A [B _]].
+    destruct (sb_seek0_spec (fst (sb_seek s 0 2)) (rf_pos (sb_buf s))) as [A' [B' _]].
+    rewrite A', B', A, B. cbn [rf_data rf_pos]. split; [apply rf_eta|auto].
 Qed.
 
 Lemma sb_getvalue_spec s : sb_buf (fst (sb_getvalue s)) = sb_buf s /\ snd (sb_getvalue s) = rf_data (sb_buf s)
                            /\ sb_max (fst (sb_getvalue s)) = sb_max s.
 Proof.
-  unfold sb_getvalue, call_data, call. rewrite f_seek0_eq. simpl. rewrite f_seek0_eq.
-  unfold f_tell. destruct (sb_buf s); simpl; auto.
+  unfold sb_getvalue, f_tell, call_data, call.
+  destruct (sb_seek0_spec s 0) as [A [B _]]. rewrite A. cbn [ref_step rest rf_pos rf_data skipn fst snd].
+  match goal with |- context [sb_seek0 ?t ?p] => destruct (sb_seek0_spec t p) as [A' [B' _]] end.
+  rewrite A', B'. cbn [sb_with sb_buf sb_max advance rf_data]. rewrite B. split; [apply rf_eta|auto].
 Qed.
 
 (* next(f) *)
@@ -52,79 +93,119 @@ Proof.
   destruct (take_line (rest (sb_buf s))) as [|x l] eqn:E; [congruence|]. reflexivity.
 Qed.
 
-Lemma sb_next_stop s : wf (sb_buf s) -> take_line (rest (sb_buf s)) = [] ->
-  sb_next s = (sb_with s (sb_buf s), Raise StopIteration).
+Lemma sb_next_stop s : take_line (rest (sb_buf s)) = [] ->
+  exists s', sb_next s = (s', Raise StopIteration) /\ sb_buf s' = sb_buf s /\ sb_max s' = sb_max s.
 Proof.
-  intros W E. unfold sb_next, sb_readline, call_data, call. cbn [ref_step]. rewrite E.
-  cbn [nonempty length sb_buf sb_with]. rewrite f_seek_end. unfold f_tell, advance. cbn [rf_pos rf_data].
-  apply (proj1 (take_line_nil_iff _)) in E. apply (proj1 (rest_nil_iff _ W)) in E.
-  rewrite Nat.add_0_r, E, Nat.eqb_refl. unfold sb_with. cbn. rewrite <- E. now destruct (sb_buf s).
+  intros E. unfold sb_next, sb_readline, call_data, call. cbn [ref_step]. rewrite E.
+  cbn [nonempty length]. set (s1 := sb_with s (advance (sb_buf s) 0)).
+  assert (B1 : sb_buf s1 = sb_buf s).
+  { unfold s1, advance. cbn. rewrite Nat.add_0_r. apply rf_eta. }
+  destruct (sb_seek_end_spec s1) as [A [B _]].
+  match goal with |- context [sb_seek0 ?t ?p] => destruct (sb_seek0_spec t p) as [A' [B' _]] end.
+  unfold f_tell in *. rewrite A in *. cbn [rf_pos rf_data] in *.
+  apply (proj1 (take_line_nil_iff _)) in E. apply rest_nil_ge in E.
+  rewrite B1 in *.
+  replace (length (rf_data (sb_buf s)) <=? rf_pos (sb_buf s)) with true by lia.
+  eexists. split; [reflexivity|]. rewrite A', B', B. split; [apply rf_eta|reflexivity].
 Qed.
 
-Lemma sb_iter_spec fuel : forall s acc, wf (sb_buf s) ->
+Lemma sb_iter_spec fuel : forall s acc,
   length (lines (rest (sb_buf s))) < fuel ->
-  sb_iter fuel s acc =
-  (sb_with s (advance (sb_buf s) (length (rest (sb_buf s)))), OLines (acc ++ lines (rest (sb_buf s)))).
+  exists s', sb_iter fuel s acc = (s', OLines (acc ++ lines (rest (sb_buf s)))) /\
+             sb_buf s' = advance (sb_buf s) (length (rest (sb_buf s))) /\ sb_max s' = sb_max s.
 Proof.
-  induction fuel as [|fuel IH]; intros s acc W F; [lia|].
+  induction fuel as [|fuel IH]; intros s acc F; [lia|].
   cbn [sb_iter].
   destruct (take_line (rest (sb_buf s))) as [|x l] eqn:E.
-  - rewrite (sb_next_stop s W E).
+  - destruct (sb_next_stop s E) as [s' [N1 [N2 N3]]]. rewrite N1.
     apply (proj1 (take_line_nil_iff _)) in E. rewrite E. cbn [lines length]. rewrite app_nil_r.
-    unfold advance. rewrite Nat.add_0_r. now destruct (sb_buf s).
+    exists s'. split; [reflexivity|]. rewrite N2. split; [|exact N3].
+    unfold advance. rewrite Nat.add_0_r. symmetry. apply rf_eta.
   - assert (NE : take_line (rest (sb_buf s)) <> []) by (rewrite E; discriminate).
     assert (NE' : rest (sb_buf s) <> []) by (intro Z; rewrite Z in E; discriminate).
     rewrite (sb_next_line s NE).
     set (d := take_line (rest (sb_buf s))) in *.
-    set (s' := sb_with s (advance (sb_buf s) (length d))).
+    set (s1 := sb_with s (advance (sb_buf s) (length d))).
     pose proof (take_line_length (rest (sb_buf s))) as L. fold d in L.
-    assert (W' : wf (sb_buf s')).
-    { unfold s', wf, advance. cbn. rewrite rest_length in L by exact W. unfold wf in W. lia. }
     rewrite (lines_unfold _ NE') in F |- *. fold d in F |- *. cbn [length] in F.
-    assert (R' : rest (sb_buf s') = skipn (length d) (rest (sb_buf s))).
-    { unfold s'. cbn [sb_buf sb_with]. apply rest_advance. }
-    rewrite (IH s' (acc ++ [d]) W') by (rewrite R'; lia).
-    rewrite R'. f_equal.
-    + unfold s', sb_with, advance. cbn. f_equal. f_equal. rewrite skipn_length. lia.
-    + now rewrite <- app_assoc.
+    assert (R' : rest (sb_buf s1) = skipn (length d) (rest (sb_buf s))).
+    { unfold s1. cbn [sb_buf sb_with]. apply rest_advance. }
+    destruct (IH s1 (acc ++ [d])) as [s' [J1 [J2 J3]]]; [rewrite R'; lia|].
+    exists s'. rewrite J1, R', <- app_assoc. split; [reflexivity|]. split; [|exact J3].
+    rewrite J2, R'. unfold s1, advance. cbn. f_equal. rewrite skipn_length. lia.
 Qed.
 
-Lemma iter_fuel f : wf f -> length (lines (rest f)) < S (length (rf_data f)).
-Proof. intro W. pose proof (lines_count (rest f)). rewrite rest_length in H by exact W. lia. Qed.
+(* readlines(hint) *)
+Lemma sb_readlines_spec fuel : forall s hint total acc,
+  length (lines (rest (sb_buf s))) < fuel ->
+  exists s', sb_readlines fuel s hint total acc =
+               (s', OLines (acc ++ take_hint hint total (lines (rest (sb_buf s))))) /\
+             sb_buf s' = advance (sb_buf s) (total_len (take_hint hint total (lines (rest (sb_buf s))))) /\
+             sb_max s' = sb_max s.
+Proof.
+  induction fuel as [|fuel IH]; intros s hint total acc F; [lia|].
+  cbn [sb_readlines]. unfold sb_readline, call_data, call. cbn [ref_step].
+  destruct (take_line (rest (sb_buf s))) as [|x l] eqn:E.
+  - cbn [nonempty length].
+    apply (proj1 (take_line_nil_iff _)) in E. rewrite E. cbn [lines take_hint]. rewrite app_nil_r.
+    eexists. split; [reflexivity|]. cbn. auto.
+  - assert (NE' : rest (sb_buf s) <> []) by (intro Z; rewrite Z in E; discriminate).
+    cbn [nonempty].
+    rewrite (lines_unfold _ NE') in F |- *. rewrite E in F |- *. cbn [length] in F.
+    cbn [take_hint].
+    set (d := x :: l) in *.
+    destruct ((0 <? hint) && (hint <=? total + length d)) eqn:H.
+    + eexists. split; [reflexivity|]. cbn [sb_with sb_buf sb_max]. split; [|reflexivity].
+      unfold total_len. cbn. now rewrite app_nil_r.
+    + set (s1 := sb_with s (advance (sb_buf s) (length d))).
+      assert (R' : rest (sb_buf s1) = skipn (length d) (rest (sb_buf s))).
+      { unfold s1. cbn [sb_buf sb_with]. apply rest_advance. }
+      destruct (IH s1 hint (total + length d) (acc ++ [d])) as [s' [J1 [J2 J3]]]; [rewrite R'; unfold d; cbn [length]; lia|].
+      exists s'. rewrite J1, R', <- app_assoc. split; [reflexivity|]. split; [|exact J3].
+      rewrite J2, R'. unfold s1, advance, total_len. cbn [sb_buf sb_with rf_data rf_pos concat].
+      rewrite app_length. f_equal. lia.
+Qed.
+
+Lemma iter_fuel f : length (lines (rest f)) < S (length (rf_data f)).
+Proof. pose proof (lines_count (rest f)). pose proof (rest_length_le f). lia. Qed.
 
 (* one call: same value, same file afterwards *)
-Lemma sb_step_ref s op : wf (sb_buf s) -> ref_pre KBytes (sb_buf s) op = true ->
+Lemma sb_step_ref s op : ref_pre KBytes (sb_buf s) op = true ->
   sb_buf (fst (sb_step s op)) = fst (ref_step (sb_buf s) op) /\
   snd (sb_step s op) = snd (ref_step (sb_buf s) op) /\
   sb_max (fst (sb_step s op)) = sb_max s.
 Proof.
-  intros W P.
+  intros P.
   destruct op as [d| |n|lim|hint| | | |off wh| | |].
   - (* write *)
-    simpl. destruct (sb_max s <=? f_tell (sb_buf s) + length d); simpl;
-      rewrite ?sb_rollover_buf, ?sb_rollover_max; auto.
+    cbn [sb_step ref_step fst snd].
+    destruct (sb_rollover_buf s) as [R1 R2].
+    destruct (sb_max s <=? f_tell (sb_buf s) + length d); cbn [sb_with sb_buf sb_max];
+      rewrite ?R1, ?R2; auto.
   - simpl; auto.
   - cbn [sb_step]. unfold call. destruct (ref_step (sb_buf s) (Read n)) as [b o] eqn:E. cbn. auto.
   - (* readline *)
-    simpl. unfold sb_readline, call_data, call.
+    cbn [sb_step]. unfold sb_readline, call_data, call.
     destruct lim as [[|n]|]; [discriminate| |]; simpl; auto.
-  - cbn [sb_step]. unfold call. destruct (ref_step (sb_buf s) (ReadLines hint)) as [b o] eqn:E. cbn. auto.
+  - (* readlines *)
+    cbn [sb_step ref_step].
+    destruct (sb_readlines_spec _ s hint 0 [] (iter_fuel (sb_buf s))) as [s' [J1 [J2 J3]]].
+    rewrite J1. cbn. auto.
   - (* next *)
     cbn [sb_step ref_step].
     destruct (take_line (rest (sb_buf s))) as [|x l] eqn:E.
-    + rewrite (sb_next_stop s W E). cbn. now destruct (sb_buf s).
+    + destruct (sb_next_stop s E) as [s' [N1 [N2 N3]]]. rewrite N1. cbn. auto.
     + rewrite sb_next_line by (rewrite E; discriminate). rewrite E. cbn. auto.
   - (* list(f): len(f) then iteration *)
     cbn [sb_step ref_step]. pose proof (sb_len_spec s) as [L1 [L2 L3]].
     destruct (sb_len s) as [s1 n]. cbn [fst snd] in *.
-    assert (W1 : wf (sb_buf s1)) by now rewrite L1.
-    rewrite (sb_iter_spec _ s1 [] W1 (iter_fuel _ W1)). rewrite L1. cbn.
-    rewrite total_len_lines. auto.
+    destruct (sb_iter_spec _ s1 [] (iter_fuel (sb_buf s1))) as [s' [J1 [J2 J3]]].
+    rewrite J1. cbn [fst snd app]. rewrite J2, J3, L1, L3. rewrite total_len_lines. auto.
   - (* iteration *)
     cbn [sb_step ref_step].
-    rewrite (sb_iter_spec _ s [] W (iter_fuel _ W)). cbn.
-    rewrite total_len_lines. auto.
-  - cbn [sb_step]. unfold call. destruct (ref_step (sb_buf s) (Seek off wh)) as [b o] eqn:E. cbn. auto.
+    destruct (sb_iter_spec _ s [] (iter_fuel (sb_buf s))) as [s' [J1 [J2 J3]]].
+    rewrite J1. cbn [fst snd app]. rewrite J2, J3. rewrite total_len_lines. auto.
+  - cbn [sb_step]. destruct (sb_seek_spec s off wh) as [A [B [C _]]]. auto.
   - simpl; auto.
   - cbn [sb_step ref_step]. pose proof (sb_getvalue_spec s) as [G1 [G2 G3]].
     destruct (sb_getvalue s); cbn [fst snd] in *. subst; auto.
@@ -133,23 +214,22 @@ Proof.
 Qed.
 
 (* the whole history *)
-Lemma sb_run_ref ops : forall s r, wf (sb_buf s) ->
+Lemma sb_run_ref ops : forall s r,
   ref_run KBytes (sb_buf s) ops = Some r -> sb_run s ops = r.
 Proof.
-  induction ops as [|op ops IH]; intros s r W R; cbn [ref_run sb_run] in *.
+  induction ops as [|op ops IH]; intros s r R; cbn [ref_run sb_run] in *.
   - congruence.
   - destruct (ref_pre KBytes (sb_buf s) op) eqn:P; [|discriminate].
-    pose proof (sb_step_ref s op W P) as [S1 [S2 S3]].
-    pose proof (ref_step_wf KBytes _ _ W P) as W'.
+    pose proof (sb_step_ref s op P) as [S1 [S2 S3]].
     destruct (ref_step (sb_buf s) op) as [f' o] eqn:E.
     destruct (sb_step s op) as [s' o'] eqn:E'. cbn [fst snd] in *. subst f' o'.
     destruct (ref_run KBytes (sb_buf s') ops) as [os|] eqn:R'; [|discriminate].
-    rewrite (IH s' os W' R'). unfold f_tell. congruence.
+    rewrite (IH s' os R'). unfold f_tell. congruence.
 Qed.
 
 Theorem bytes_refines_reference max ops r :
   ref_run KBytes rf_empty ops = Some r -> sb_run (sb_init max) ops = r.
-Proof. intro R. apply sb_run_ref; [unfold wf; simpl; lia|exact R]. Qed.
+Proof. intro R. apply sb_run_ref. exact R. Qed.
 
 (* independence of max_size, as a corollary *)
 Corollary bytes_max_independent max1 max2 ops r :
